@@ -5,7 +5,7 @@ use crate::space::*;
 use crate::tt::{lit_true, TT};
 
 /// brute force: classes (>= 2 members) of candidate literals with the same truth value in every model containing A
-fn oracle_atomic(tt: &TT, cands: &[u32], a: &[i32], cross: bool) -> Vec<Vec<i32>> {
+pub fn oracle_atomic(tt: &TT, cands: &[u32], a: &[i32], cross: bool) -> Vec<Vec<i32>> {
     let models = tt.models_with(a);
     let mut lits: Vec<i32> = Vec::new();
     for &c in cands { lits.push(c as i32); if cross { lits.push(-(c as i32)); } }
@@ -35,7 +35,7 @@ fn oracle_atomic(tt: &TT, cands: &[u32], a: &[i32], cross: bool) -> Vec<Vec<i32>
 }
 
 /// canonical form of a cross result: each class with negative first literal, sorted
-fn canon_cross(sets: &[Vec<i32>]) -> Vec<Vec<i32>> {
+pub fn canon_cross(sets: &[Vec<i32>]) -> Vec<Vec<i32>> {
     let mut out: Vec<Vec<i32>> = sets.iter().map(|s| { let mut s = s.clone(); s.sort_by_key(|x| x.abs()); if s[0] < 0 { s } else { s.iter().map(|x| -x).collect() } }).collect();
     out.sort();
     out
@@ -110,5 +110,6 @@ pub fn c08(a: &Args) {
         out.circuit(&export_nodes(&d), &circuit_line(&d));
         out.query("atomic", &format!("0 {} | ", (1..=n).map(|c| c.to_string()).collect::<Vec<_>>().join(" ")), &sets.iter().map(|s| s.iter().map(|x| x.to_string()).collect::<Vec<_>>().join(" ")).collect::<Vec<_>>().join(";"));
     }
-    out.finish("every model of the C01 space x satisfiable assumption lists of length 0..3 x candidate subsets (all for n<=4 in thorough / 40% in quick, random beyond, and the default 'all features') x {plain, cross} vs brute-force classes of literals with equal value in every model containing A (classes with >=2 members, members ascending; cross: up to negating all members); library and stream; the model (without sample prefilter) must give the identical report");
+    crate::cli_props::cli_pass(a, &mut out, &mut rng, &["atomic-sets", "anomalies"]);
+    out.finish("(+ CLI pass: the rebuilt binary's `atomic-sets / anomalies` on a sample of the models, judged by the same oracles) every model of the C01 space x satisfiable assumption lists of length 0..3 x candidate subsets (all for n<=4 in thorough / 40% in quick, random beyond, and the default 'all features') x {plain, cross} vs brute-force classes of literals with equal value in every model containing A (classes with >=2 members, members ascending; cross: up to negating all members); library and stream; the model (without sample prefilter) must give the identical report");
 }
